@@ -120,6 +120,7 @@ func c02Units(tier string) []hx.Unit {
 	scns = append(scns, c02Scn{name: "S5/periodic/finite1/run@T", periodic: true, lastTick: T, T: T, horizon: 2*T + 2*sec, actions: []c02Action{{at: T, kind: "run", name: "J"}}})
 	scns = append(scns, c02Scn{name: "S5/periodic/finite2/run@2T", periodic: true, lastTick: 2 * T, T: T, horizon: 3*T + 2*sec, actions: []c02Action{{at: 2 * T, kind: "run", name: "J"}}})
 	scns = append(scns, c02Scn{name: "S5/periodic/finite2/run@T", periodic: true, lastTick: 2 * T, T: T, horizon: 3*T + 2*sec, actions: []c02Action{{at: T, kind: "run", name: "J"}}})
+	scns = append(scns, c02Scn{name: "S5/periodic/finite1/dur3/run@T+3", periodic: true, jobDur: 3 * sec, lastTick: T, T: T, horizon: 2*T + 2*sec, actions: []c02Action{{at: T + 3*sec, kind: "run", name: "J"}}})
 	scns = append(scns, c02Scn{name: "S5/periodic/dur12", periodic: true, jobDur: 12 * sec, T: T, horizon: 4*T + 5*sec})
 	// S6: name re-use
 	scns = append(scns, c02Scn{name: "S6/cancel@-2,sched@-2", T: T, actions: []c02Action{{at: T - 2*sec, kind: "cancel", name: "J"}, {at: T - 2*sec, kind: "sched", name: "J"}}})
